@@ -1630,3 +1630,7 @@ cdef class NNPS(NNPSBase):
         for name, arr in pa.properties.items():
             stride = pa.stride.get(name, 1)
             arr.c_align_array(indices, stride)
+
+        # The ordering above may interleave ghost/remote particles with the
+        # real ones, so move the real particles to the front again.
+        pa.align_particles()
